@@ -1020,6 +1020,45 @@ func srvPlacementMembers(cx *Ctx) {
 	c.stop(4, false)
 	out.Local("member 4 removed through member 1 (acknowledged) and shut down")
 	out.Nontrivial("member-removed")
+	checkPlacement := func(d *pb.Dataset, how string, R uint32) {
+		want := int(R)
+		if want > 3 {
+			want = 3
+		}
+		for pi, p := range d.GetPartitions() {
+			seen := map[uint64]bool{}
+			for _, n := range p.GetNodeIds() {
+				if n < 1 || n > 3 {
+					out.Violate("C16", "C16/servers/non-member", fmt.Sprintf("%s after member 4's removal was acknowledged places partition %d on node %d; members are [1 2 3]", how, pi, n))
+				}
+				if seen[n] {
+					out.Violate("C16", "C16/servers/duplicate-node", fmt.Sprintf("%s: partition %d lists node %d twice", how, pi, n))
+				}
+				seen[n] = true
+			}
+			if len(p.GetNodeIds()) != want {
+				out.Violate("C16", "C16/servers/replica-count", fmt.Sprintf("%s, R=%d on 3 members: partition %d has %d replicas %v, expected %d", how, R, pi, len(p.GetNodeIds()), p.GetNodeIds(), want))
+			}
+		}
+	}
+	// a definition as a client might have read it back from another cluster or before the removal — id and
+	// partitions (with their replica lists) filled in — sent to Create: a clone / restore script. Placement
+	// is computed when the dataset is created, from the members of that moment; what the message carries in
+	// those fields is not the client's to choose.
+	{
+		var parts []*pb.Partition
+		for i := 0; i < 4; i++ {
+			parts = append(parts, &pb.Partition{Id: uuid.NewV4().Bytes(), NodeIds: []uint64{4, uint64(1 + i%3), 9}})
+		}
+		ctx, cancel := context.WithTimeout(context.Background(), 8*time.Second)
+		again, err := pb.NewDatasetManagerClient(c.nodes[3].conn).Create(ctx, &pb.Dataset{Id: uuid.NewV4().Bytes(), Dimension: 2, Space: pb.Space_Euclidean, PartitionCount: 4, ReplicationFactor: 3, Partitions: parts})
+		cancel()
+		if err != nil {
+			out.Local("creating from a read-back definition failed: %v", err)
+		} else {
+			checkPlacement(again, "a dataset created from a definition that carries an id and replica lists naming nodes 4 and 9 (through member 3)", 3)
+		}
+	}
 	for _, via := range []uint64{2, 3, 1} {
 		for _, R := range []uint32{1, 2, 3, 5} {
 			d, _, err := c.createPatiently(via, 2, 4, R, 20*time.Second)
